@@ -170,34 +170,36 @@ def run(ctx):
             can, seqs = T.canon(evs, with_seq=True)
             for k, t in enumerate(can):
                 if t[0] == "fsync":
-                    jobs.append((desc, lines, seqs[k], k))
+                    jobs.append((desc, lines, seqs[k], k, "EIO"))
+                    if desc["size"] == "V":
+                        jobs.append((desc, lines, seqs[k], k, "EINVAL"))      # "not supported here" is a failure too
         if len(samples) < 4 and impl is not None and impl.steps and desc["situation"] == "secondary":
             samples.append({"case": desc, "trace": [T.fmt(t) for t in T.canon(impl.steps[0]["events"]) if t[0] in ("create", "write", "copy", "fsync", "fchmod", "chmod", "rename", "link")][:12]})
 
     def faulted(job):
-        desc, lines, seq, k = job
+        desc, lines, seq, k, er = job
         try:
-            impl = S.run_impl(lines, fault=(seq, "EIO"))
-            aug = S.augment(lines, impl, fault_by_step={1: (k, "EIO")})
+            impl = S.run_impl(lines, fault=(seq, er))
+            aug = S.augment(lines, impl, fault_by_step={1: (k, er)})
             model = S.run_model(aug)
             return job, impl, S.compare(lines, impl, model, what=("result", "trace"))
         except Exception as ex:
             return job, None, ["EXCEPTION " + repr(ex)]
     with cf.ThreadPoolExecutor(16) as ex:
         fres = list(ex.map(faulted, jobs))
-    for (desc, lines, seq, k), impl, diffs in fres:
+    for (desc, lines, seq, k, er), impl, diffs in fres:
         if diffs:
             ties.append({"what": "model and implementation disagree under a failing flush", "case": str(desc), "detail": diffs[:3]})
         else:
             agree += 1
-        judge(desc, lines, impl, fault=(k, "EIO"))
+        judge(desc, lines, impl, fault=(k, er))
     seen, uniq = set(), []
     for v in violations:
         k = tuple(sorted(v["classification"].items()))
         if k not in seen:
             seen.add(k); uniq.append(v)
     cov = {"evaluations": len(res) + len(fres), "distinct_nontrivial": nontriv,
-           "rule": "publishing paths {set, put, set_temp_file, put_temp_file, ensure, get_or_update Replace / Promote} x {plain, sharded} x {miss, hit, secondary hit to promote, over capacity with maintenance, key present but evicted by the maintenance of this very write} x value sizes {1 B, empty, 4097 B in 3 chunks, 300 kB in 5 chunks} x auto_sync {on, off}, complete call trace of the operation, plus every flush failing in turn (EIO): a per-inode monitor (descriptor and name tracking through rename/link) requires a successful flush after the last write and before the publishing rename/link, no write bit at publication, no write/truncate/chmod/fchmod of an inode once visible, no publication after a failed flush; model/implementation trace agreement. Non-trivial = a publication or a failed flush occurs.",
+           "rule": "publishing paths {set, put, set_temp_file, put_temp_file, ensure, get_or_update Replace / Promote} x {plain, sharded} x {miss, hit, secondary hit to promote, over capacity with maintenance, key present but evicted by the maintenance of this very write} x value sizes {1 B, empty, 4097 B in 3 chunks, 300 kB in 5 chunks} x auto_sync {on, off}, complete call trace of the operation, plus every flush failing in turn (EIO, and EINVAL as a filesystem without the operation would answer): a per-inode monitor (descriptor and name tracking through rename/link) requires a successful flush after the last write and before the publishing rename/link, no write bit at publication, no write/truncate/chmod/fchmod of an inode once visible, no publication after a failed flush; model/implementation trace agreement. Non-trivial = a publication or a failed flush occurs.",
            "samples": samples, "traces_validated_against_impl": agree, "failing_flush_runs": len(fres)}
     if not ctx.quick():
         rc, o = C.coqchk(PROPS)
